@@ -373,3 +373,14 @@ class HOptDict:
 
     def copy(self):
         return HOptDict(self.entries)
+
+
+class HSymList:
+    """Heap cell holding a list/deque of symbolic length (functional SymSeq inside)."""
+
+    def __init__(self, seq, maxlen=None):
+        self.seq = seq
+        self.maxlen = maxlen
+
+    def copy(self):
+        return HSymList(self.seq, self.maxlen)
